@@ -60,7 +60,7 @@ LINK = {
 LIBS = ["-llemon", "-lpthread"]
 
 SAN_ENV = {
-    "ASAN_OPTIONS": "detect_leaks=0:abort_on_error=1:allocator_may_return_null=1:handle_abort=1",
+    "ASAN_OPTIONS": "detect_leaks=0:abort_on_error=1:allocator_may_return_null=1:handle_abort=1:malloc_context_size=4:quarantine_size_mb=64",
     "UBSAN_OPTIONS": "print_stacktrace=1:halt_on_error=1",
     "TSAN_OPTIONS": "halt_on_error=1:second_deadlock_stack=1",
 }
